@@ -315,6 +315,7 @@ class Interp:
         self.world = None            # harness state reachable from models (transport, scheduler ...)
         self.const_cache = {}
         self.trace_calls = False
+        self.merge_enabled = True
 
     # ------------------------------------------------------------------ constants
     def const(self, txt, fr):
@@ -974,6 +975,10 @@ class Interp:
                 raise InternalError('switchInt without matching target')
             return other
         isb = z3.is_bool(v)
+        if isb and len(cases) == 1 and other is not None and self.merge_enabled:
+            m = self.try_merge(fr, v if cases[0][0] else z3.Not(v), cases[0][1], other)
+            if m is not None:
+                return m
         for val, t in cases:
             if isb:
                 c = v if val else z3.Not(v)
@@ -984,6 +989,112 @@ class Interp:
         if other is None:
             raise InternalError('switchInt without matching target')
         return other
+
+    # ------------------------------------------------------------------ merging of pure diamonds
+    PURE_RV = ('use', 'binop', 'unop')
+    def try_merge(self, fr, cond, bb_then, bb_else):
+        """`switchInt` on a symbolic bool whose two continuations are side-effect free scalar computations that meet
+        again (the lowering of `a || b`, `a && b`, `if c {x} else {y}` on scalars): evaluate both and merge the
+        assigned locals with ite instead of forking.  Returns the join block or None (then the caller forks)."""
+        budget = [24]
+        a = self.pure_region(fr, bb_then, dict(fr.locals), budget)
+        if a is None:
+            return None
+        b = self.pure_region(fr, bb_else, dict(fr.locals), budget)
+        if b is None or a[0] != b[0]:
+            return None
+        join, la = a
+        lb = b[1]
+        merged = {}
+        for k in set(la) | set(lb):
+            x = la.get(k, UNINIT); y = lb.get(k, UNINIT)
+            if x is y:
+                continue
+            if x is fr.locals.get(k, UNINIT) and y is fr.locals.get(k, UNINIT):
+                continue
+            if not (is_scalar(x) and is_scalar(y)):
+                return None
+            merged[k] = ite(cond, x, y)
+        fr.locals.update(merged)
+        self.stats.merges = getattr(self.stats, 'merges', 0) + 1
+        return join
+
+    def pure_region(self, fr, bb, locs, budget):
+        """execute pure blocks starting at bb on the local map `locs`; returns (exit block, locals) where the exit block
+        is the first block ending in `return` (not executed) - or None if anything impure is met"""
+        blocks = fr.func.blocks
+        tmp = Frame(fr.func, fr.env)
+        tmp.locals = locs
+        while True:
+            budget[0] -= 1
+            if budget[0] < 0:
+                return None
+            stmts, term, _ = blocks[bb]
+            if term[0] == 'return' and not stmts:
+                return bb, locs
+            for s in stmts:
+                if s[0] != 'assign' or s[1][1] or s[2][0] not in self.PURE_RV:
+                    return None
+                rv = s[2]
+                ops = rv[1:] if rv[0] == 'use' else rv[2:]
+                for o in ops:
+                    if o[0] in ('copy', 'move') and o[1][1]:
+                        return None
+                    if o[0] == 'fnitem':
+                        return None
+                    if o[0] == 'const' and not re.match(r"^(-?\d+_\w+|true|false|'.*')$", o[1]):
+                        return None
+                if rv[0] == 'binop' and rv[1] in ('Div', 'Rem', 'Cmp') or rv[0] == 'binop' and rv[1].endswith('WithOverflow'):
+                    return None
+                try:
+                    v = self.rvalue(tmp, rv)
+                except (InternalError, Unsupported, KeyError):
+                    return None
+                if not is_scalar(v):
+                    return None
+                locs[s[1][0]] = v
+            t = term[0]
+            if t == 'goto':
+                bb = term[1]
+            elif t == 'return':
+                return None
+            elif t == 'switch':
+                v = self.operand(tmp, term[1]) if term[1][0] != 'const' and not term[1][1][1] else None
+                if v is None:
+                    return None
+                cases, other = term[2], term[3]
+                if not is_sym(v):
+                    if isinstance(v, bool):
+                        v = int(v)
+                    nxt = other
+                    for val, tg in cases:
+                        if v == val:
+                            nxt = tg
+                    if nxt is None:
+                        return None
+                    bb = nxt
+                    continue
+                if not z3.is_bool(v) or len(cases) != 1 or other is None:
+                    return None
+                c = v if cases[0][0] else z3.Not(v)
+                a = self.pure_region(fr, cases[0][1], dict(locs), budget)
+                if a is None:
+                    return None
+                b = self.pure_region(fr, other, dict(locs), budget)
+                if b is None or a[0] != b[0]:
+                    return None
+                la, lb = a[1], b[1]
+                for k in set(la) | set(lb):
+                    x = la.get(k, UNINIT); y = lb.get(k, UNINIT)
+                    if x is y:
+                        locs[k] = x
+                        continue
+                    if not (is_scalar(x) and is_scalar(y)):
+                        return None
+                    locs[k] = ite(c, x, y)
+                return a[0], locs
+            else:
+                return None
 
     # ------------------------------------------------------------------ drops
     def drop_place(self, fr, pl):
@@ -1186,6 +1297,20 @@ def reset_path_state():
 # ============================================================================ helpers
 def simp(e):
     return z3.simplify(e)
+
+def is_scalar(v):
+    return isinstance(v, (int, bool)) and not isinstance(v, float) or (is_sym(v) and (z3.is_bool(v) or z3.is_bv(v)))
+
+def ite(c, x, y):
+    """scalar merge"""
+    bx = isinstance(x, bool) or (is_sym(x) and z3.is_bool(x))
+    by = isinstance(y, bool) or (is_sym(y) and z3.is_bool(y))
+    if bx or by:
+        X = x if is_sym(x) else z3.BoolVal(bool(x))
+        Y = y if is_sym(y) else z3.BoolVal(bool(y))
+        return z3.simplify(z3.If(c, X, Y))
+    n = x.size() if is_sym(x) else (y.size() if is_sym(y) else 64)
+    return z3.simplify(z3.If(c, bv(x, n), bv(y, n)))
 
 def to_signed(v, bits):
     return v - (1 << bits) if v >> (bits - 1) else v
